@@ -25,6 +25,32 @@ def scenarios(ctx):
             steps += [{"op": via} for _ in range(2 * W + 2)]
             out.append({"id": "all-%d" % j, "cfg": {"subject": "rr", "table": j}, "steps": steps, "weights": list(ws)})
             j += 1
+    # (1c) pool changes of every kind as the LAST change before the selections: removal of the server that kept the gcd low or
+    #      that carried the maximum weight, re-weighting of an existing server, removal then re-add - no "healing" call afterwards
+    j = 0
+    base = [(2, 4), (4, 2), (3, 6, 9), (2, 4, 6), (6, 9), (4, 8, 2), (5, 10), (2, 2, 4), (1, 3), (3, 1, 2)]
+    for ws in base + [tuple(R.random_pool(rng, 4, 60)) for _ in range(10 if quick else 60)]:
+        for extra in (1, 3, 5, 7):
+            for pos in range(len(ws) + 1):
+                keys = R.KEYS[:len(ws) + 1]
+                full = list(ws[:pos]) + [extra] + list(ws[pos:])
+                for last in ("remove", "reweight"):
+                    steps = [{"op": "upsert", "k": k, "v": 0, "w": w} for k, w in zip(keys, full)]
+                    steps += [{"op": "pick"} for _ in range(rng.randint(0, 7))]
+                    after = list(full)
+                    if last == "remove":
+                        steps.append({"op": "remove", "k": keys[pos], "v": 0})
+                        del after[pos]
+                    else:
+                        nw = rng.choice([0, ws[0] if ws[0] else 1, 2 * extra])
+                        steps.append({"op": "upsert", "k": keys[pos], "v": 0, "w": nw})
+                        after[pos] = nw
+                    W = R.W_of(after)
+                    if W > 60:
+                        continue
+                    steps += [{"op": "pick"} for _ in range(2 * W + 3)]
+                    out.append({"id": "chg-%d" % j, "cfg": {"subject": "rr", "table": j}, "steps": steps})
+                    j += 1
     # (2) seeded pools, large weights, 2W+k selections, through NextServer and through ServeHTTP
     n = 120 if quick else 1500
     wcap = 300 if quick else 3000
